@@ -80,6 +80,12 @@ CHECKS = {
   text="For each override table every ordered list of up to 4 distinct keys from 8 modifiers + 4 keys (13 345 lists) is transformed by the real code and compared, as a key set, with the reference (containment of the modifier set, most modifiers wins, replaced keys removed, outputs added, other keys untouched). Through the pipeline, at every quiescent point the OS key set must equal the reference applied to the keys the layout holds, and nothing may stay down after the last release (override-release-on-activation on and off).",
   note="Where the statement is silent the oracle is a validity predicate: a modifier listed after the key may or may not count; ties between overrides with equally many modifiers may go either way. With override-release-on-activation only the end state is asserted."),
 
+ "C14": dict(
+  cat="exploration", ref="DESIGN.md §4 C14",
+  technique="proptest-generated configurations (recursive strategy over every key-producing action form, depth <= 3, disjoint output pools per (key, layer) cell so that an output identifies its origin) and press/release histories with injected OS repeat events, through the whole state machine; safety and completeness oracles on the simulated OS output; proptest shrinking",
+  text="Two physical keys carry generated actions on two layers (key, output chord, multi, tap-hold x3, lazy/eager tap-dance, one-shot, fork, switch, unmod, unshift, use-defsrc, transparent, nested up to depth 3); a while-held layer key, an unmod/unshift key or a sequence leader, physical lctl/lalt, optional defoverrides, a chords-v2 chord and v1 chord keys. Repeat events are injected for held keys at arbitrary points (also while a tap-hold is pending and in sequence mode). Safety: each repeat yields at most one output event, a press of a key that is down at the OS. Completeness: when nothing is pending and the layers have not changed since the press, a key holding some of its own outputs down gets a repeat for one of them, a non-modifier in preference to a modifier.",
+  note="Completeness is only demanded where attribution is unambiguous (the key's own pool keys that went down since its press). Six defects were repaired with fix: commits (F21, F39-F43); F44 (key pressed during a hidden sequence mode) is a known finding."),
+
  "C17": dict(
   cat="exploration", ref="DESIGN.md §4 C17, Appendix A.4/D",
   technique="model-based property testing: exhaustive schedule enumeration over the tap-dance key and one other key with gaps {0,1,T-1,T,T+1} + proptest-generated longer histories, compared with a reference model of lazy and eager tap-dance",
